@@ -40,6 +40,8 @@ static const Scenario kScenarios[] = {
             "schema x.in y.in", "all", { { "gen.h", "", KEEP_IF_SAME | HALVE, NULL }, { NULL } } },
   /* 13 */ { "wide3", { RULES "build w1: cc s1\nbuild w2: cc s2\nbuild w3: cc s3\nbuild top: cc w1 w2 w3\n", NULL, NULL },
             "s1 s2 s3", "top", { { NULL } } },
+  /* 14 */ { "discovered_generated_no_path", { RULES "build gh: cc ghsrc\nbuild o: ccd c\n", NULL, NULL },
+            "ghsrc c", "gh o", { { "o", "gh", 0, NULL }, { NULL } } },
 };
 #ifndef SCENARIO
 #define SCENARIO 0
